@@ -478,6 +478,19 @@ def _replay(chk, ctx, hh) -> None:
                     isinstance(c, ast.Call) and isinstance(c.func, ast.Name) and c.func.id == 'parse_action' and len(c.args) >= 2
                     and isinstance(c.args[0], ast.Name) and c.args[0].id == sv and isinstance(c.args[1], ast.Name) and c.args[1].id == st.targets[0].id
                     for b in nxt.body for c in ast.walk(b))
+    # a repair step is made exactly when no line was applied (`action is None`): an applied line that happens to be falsy - the
+    # empty text - is not a missing one
+    act_names = {st.targets[0].id for _, block in takes for st in block if isinstance(st, ast.Assign) and isinstance(st.value, ast.Call)
+                 and isinstance(st.value.func, ast.Attribute) and st.value.func.attr == 'popleft' and isinstance(st.targets[0], ast.Name)}
+    def heads_chain(block):
+        return bool(block) and isinstance(block[0], ast.If) and 'can_post_ante' in ast.unparse(block[0].test)
+    gates = [n for n in ast.walk(sa.node) if isinstance(n, ast.If) and 'can_post_ante' not in ast.unparse(n.test)
+             and (heads_chain(n.body) or heads_chain(n.orelse))]
+    ok_gate = len(gates) == 1 and len(act_names) == 1 and \
+        (T.cond(gates[0].test) if heads_chain(gates[0].body) else T.mk_not(T.cond(gates[0].test))) == T.spec(f'{next(iter(act_names))} is None', boolean=True)
+    chk.ob('C16.pairs', 'state_actions:repair_gate', ok_gate, ctx.loc(sa, gates[0]) if gates else sa.loc,
+           'the documented completion runs exactly when no line of the history was applied in this step (the line variable is None)',
+           got=stmt_text(gates[0].test) if gates else None)
     n_yield = sum(isinstance(x, (ast.Yield, ast.YieldFrom)) for x in ast.walk(sa.node))
     chk.ob('C16.pairs', 'state_actions:every_line_parsed', ok_take and n_yield == 2, sa.loc,
            'a line taken from the history is handed to parse_action at once, and state-action pairs are yielded from one place (after the line '
